@@ -142,8 +142,12 @@ def make_case(prop, seed, i, tier):
             specs.append(G.gen_random(rng, G.profile(facility_rich=rng.random() < 0.3, max_time=60)))
         return dict(prop=prop, i=i, kind="fresh-process", specs=specs, hashseed=rng.randrange(1, 10 ** 6))
     r = rng.random()
-    if r < 0.15:
+    if r < 0.25:
         spec = G.shape_chains(rng, 1)[0]
+        for t in spec["tasks"]:
+            if rng.random() < 0.25:
+                t["auto"] = True          # automatic tasks in the middle of chains of all four kinds
+                t["rate"] = rng.choice([None, 0.5, 1.0, 2.0])
     else:
         spec = G.gen_random(rng, G.profile(facility_rich=rng.random() < 0.3, max_time=60,
                                            kinds=(G.FS, G.SS, G.FF, G.SF, G.FF, G.SF)))
